@@ -274,13 +274,28 @@ def r133(prog, chk):
 
 # ----------------------------------------------------------------------------- R13.4
 def _glyphset_origin(prog, fi, name_node) -> bool:
+    memo = prog.__dict__.setdefault("_c13_gs_memo", {})
+    k = (fi.qname, id(name_node))
+    if k not in memo:
+        memo[k] = _glyphset_origin_uncached(prog, fi, name_node)
+    return memo[k]
+
+
+def _call_sites(prog, fname: str):
+    memo = prog.__dict__.setdefault("_c13_sites_memo", {})
+    if fname not in memo:
+        memo[fname] = [c for g in prog.ix.functions.values() for c in calls_named(g, fname)]
+    return memo[fname]
+
+
+def _glyphset_origin_uncached(prog, fi, name_node) -> bool:
     ok, _bad = every_origin(prog, fi, name_node, lambda e, f: isinstance(e, ast.Attribute) and e.attr == "glyphSet", allow_const=False)
     if ok:
         return True
     # parameter named by the caller with a glyph set (getVariableKerningPairs(..., self.context.glyphSet, ...))
     if isinstance(name_node, ast.Name) and name_node.id in fi.params():
         idx = [p for p in fi.params()].index(name_node.id)
-        sites = [c for g in prog.ix.functions.values() for c in calls_named(g, fi.name)]
+        sites = _call_sites(prog, fi.name)
         if not sites:
             return False
         for c in sites:
